@@ -1,6 +1,7 @@
 import PydraModel.Argv.WordsLemmas
 import PydraModel.Argv.CleanupSurvive
 import PydraModel.Argv.LowerLemmas
+import PydraModel.Argv.ParseLemmas
 /-
 C23 — Field values reach the command intact.
 
@@ -151,6 +152,69 @@ def eqS : Argstr := ⟨"--s={s}".toList, false, [.lit "--s=".toList, .ref "s".to
 theorem C23_witness_strip :
     formatScalar noEnv ⟨"s".toList, false, false, some eqS, none, [' '], false⟩ eqS (.str ['a', Char.ofNat 0xa0])
       = .ok ["--s=a".toList] := by decide
+
+/-! ### the `...` repeat marker belongs to the argstr, never to a value
+
+In the model, as in the pinned code, `...` is removed from the ARGSTR TEXT only (`removeDots` inside
+`parseArgstr` = `fld.argstr.replace("...", "")`); `formatScalar` / `formatMany` never apply it to the text
+they build.  Dots are shlex-inert, so the survival theorems above cover values with `...`; stated outright: -/
+
+theorem dots_inert : Inert "...".toList := by decide
+
+/-- PARTIAL (inert surroundings): a value with a literal `...` anywhere (start, middle, end, alone) under a
+    plain argstr — also one that itself ends with the `...` marker — is an argument of its own, dots included. -/
+theorem C23_value_dots_survive (env : Env) (f : Field) (raw : Str) (a : Argstr) (pre post : Str)
+    (hparse : parseArgstr raw = .ok a) (hp : a.templated = false) (hl : Harmless (litText a.segs))
+    (h1 : Inert pre) (h2 : Inert post) :
+    formatScalar env f a (.str (pre ++ ("...".toList ++ post)))
+      = .ok (words (litText a.segs) ++ [pre ++ ("...".toList ++ post)])
+    ∧ unparse a.segs = removeDots raw := by
+  refine ⟨?_, (parseArgstr_unparse hparse).2.2⟩
+  apply C23_plain_own_argument_partial env f a _ hp hl (by simp)
+  intro c hc
+  simp only [List.mem_append] at hc
+  rcases hc with hc | hc | hc
+  · exact h1 c hc
+  · exact dots_inert c hc
+  · exact h2 c hc
+
+/-- … and inside any templated argstr it is found verbatim in one argument -/
+theorem C23_value_dots_survive_templated (env : Env) (f : Field) (a : Argstr) (pre post : Str)
+    (ht : a.templated = true) (hr : Seg.ref f.name ∈ a.segs)
+    (h1 : Inert pre) (h2 : Inert post) (hc : CleanupProof (pre ++ ("...".toList ++ post)))
+    (args : List Str) (h : formatScalar env f a (.str (pre ++ ("...".toList ++ post))) = .ok args) :
+    ∃ t ∈ args, (pre ++ ("...".toList ++ post)) <:+: t := by
+  apply C23_templated_survives_partial env f a _ ht hr (by simp) _ hc args h
+  intro c hc'
+  simp only [List.mem_append] at hc'
+  rcases hc' with hc' | hc' | hc'
+  · exact h1 c hc'
+  · exact dots_inert c hc'
+  · exact h2 c hc'
+
+/-- the variant that strips the marker from the BUILT argument string instead of the argstr text
+    (NOT the pinned code; kept as documentation of what the theorem above excludes) -/
+def formatPlainStripAfter (lit v : Str) : Except Err (List Str) := splitCmd (removeDots (lit ++ ' ' :: v))
+
+def dashR : Argstr := ⟨"-r...".toList, true, [.lit "-r".toList]⟩
+def fldR : Field := ⟨"r".toList, false, false, some dashR, none, [' '], false⟩
+
+/-- the code keeps the dots of values (plain, path with a directory named `...`, repeated `-r...`, templated) … -/
+theorem C23_witness_dots_kept :
+    formatScalar noEnv fldS dashS (.str "Loading...".toList) = .ok ["-s".toList, "Loading...".toList]
+    ∧ formatScalar noEnv fldS dashS (.path "/data/.../file.txt".toList) = .ok ["-s".toList, "/data/.../file.txt".toList]
+    ∧ formatMany noEnv fldR dashR [.str "main...feature".toList, .str "....".toList]
+        = .ok ["-r".toList, "main...feature".toList, "-r".toList, "....".toList]
+    ∧ formatScalar noEnv ⟨"s".toList, false, false, some eqS, none, [' '], false⟩ eqS (.str "...".toList) = .ok ["--s=...".toList]
+    ∧ parseArgstr "-r...".toList = .ok dashR := by
+  refine ⟨by decide, by decide, by decide, by decide, by decide⟩
+
+/-- … whereas stripping after the substitution would delete them -/
+theorem C23_witness_strip_after :
+    formatPlainStripAfter "-s".toList "Loading...".toList = .ok ["-s".toList, "Loading".toList]
+    ∧ formatPlainStripAfter "-s".toList "main...feature".toList = .ok ["-s".toList, "mainfeature".toList]
+    ∧ formatPlainStripAfter "-s".toList "/data/.../file.txt".toList = .ok ["-s".toList, "/data//file.txt".toList] := by
+  refine ⟨by decide, by decide, by decide⟩
 
 /-! ### brackets and braces in values (D43, D44) -/
 
